@@ -180,6 +180,12 @@ func NewClient(dsn string, options ...Option) *http.Client {
 var _ http.RoundTripper = (*transport)(nil)
 
 func (r *transport) RoundTrip(req *http.Request) (*http.Response, error) {
+	if req.Method == "" {
+		// For client requests an empty method means GET (net/http). Work on a
+		// shallow copy: the caller's request is not modified.
+		req = req.WithContext(req.Context())
+		req.Method = http.MethodGet
+	}
 	urlKey := r.uk.URLKey(req.URL)
 
 	if !r.rmc.IsRequestMethodUnderstood(req) {
